@@ -201,6 +201,15 @@ def run(ctx):
         w = f.get('witness') or {}
         if w.get('stream') == 'v4cal':
             run_v4cal(ctx, w['cfg'])
+    import glob
+    import json
+    import os
+    corpus = os.path.join(os.path.dirname(os.path.dirname(os.path.dirname(os.path.abspath(__file__)))), 'corpus', 'C16')
+    for fn in sorted(glob.glob(os.path.join(corpus, '*.replay.json'))):     # regression inputs (once-failing cases)
+        case = json.load(open(fn)).get('case', {})
+        if case.get('stream') == 'v4cal':
+            run_v4cal(ctx, case['cfg'])
+            ctx.count('v4cal:corpus')
     n = ctx.scale(14, 150)
     for i in range(n):
         run_v4cal(ctx, gen_v4cal(ctx.rng, ctx.tier, force=FORCED[i] if i < len(FORCED) else None))
